@@ -76,9 +76,9 @@ static std::string source_doc(Case &c, Draw &d, bool &is_v2) {
   }
   SpecOpts so; so.xml_num = 0; so.misc_keep = true; so.syn.max_pus = 24; so.gen_flags = false; TopoSpec sp = gen_topospec(d, so);
   hwloc_topology_t t; hwloc_topology_init(&t); if (apply_spec_and_load(c, t, sp) < 0) { hwloc_topology_destroy(t); c.discard(); }
-  ops_xml_safe = true; int nops = d.range(0, 4); for (int i = 0; i < nops; i++) apply_op(c, d, t);
+  ops_xml_safe = true; int nops = d.range(0, 4); std::string opsd; for (int i = 0; i < nops; i++) { OpRes r = apply_op(c, d, t); opsd += strf(" | %s -> %d", r.desc.c_str(), r.rc); }
   is_v2 = d.chance(1, 4); std::string x = export_xml(t, is_v2 ? HWLOC_TOPOLOGY_EXPORT_XML_FLAG_V2 : 0); hwloc_topology_destroy(t);
-  c.descf("source=export%s of %s +%d ops", is_v2 ? "(v2)" : "", sp.text().c_str(), nops); return x;
+  c.descf("source=export%s of %s +%d ops%s", is_v2 ? "(v2)" : "", sp.text().c_str(), nops, opsd.c_str()); return x;
 }
 
 static Case *g_c; static void fail_cb(const char *rule, const char *msg) { g_c->fail(rule, "%s", msg); }
@@ -112,6 +112,7 @@ void h_run(Case &c) {
   if (fsel == 1) hwloc_topology_set_all_types_filter(t, HWLOC_TYPE_FILTER_KEEP_ALL); else if (fsel == 2) hwloc_topology_set_all_types_filter(t, HWLOC_TYPE_FILTER_KEEP_STRUCTURE); else if (fsel == 3) { hwloc_topology_set_io_types_filter(t, HWLOC_TYPE_FILTER_KEEP_IMPORTANT); hwloc_topology_set_type_filter(t, HWLOC_OBJ_MISC, HWLOC_TYPE_FILTER_KEEP_ALL); }
   int r; std::string path = std::string(h_workdir()) + strf("/c06.%d.xml", (int)getpid());
   char *blk = (char *)malloc(x.size() + 1); memcpy(blk, x.data(), x.size()); blk[x.size()] = 0;
+  if (getenv("VERIF_C06_DUMP")) { FILE *f = fopen(getenv("VERIF_C06_DUMP"), "wb"); if (f) { fwrite(x.data(), 1, x.size(), f); fclose(f); } }
   c.attempt("set + load of the mutated document");
   if (viafile) { FILE *f = fopen(path.c_str(), "wb"); fwrite(x.data(), 1, x.size(), f); fclose(f); r = hwloc_topology_set_xml(t, path.c_str()); } else r = hwloc_topology_set_xmlbuffer(t, blk, (int)x.size() + 1);
   CHECK(c, r == 0 || r == -1, "set_ret", "set returned %d", r);
@@ -151,6 +152,13 @@ bool h_named(const std::string &name, Case &c) {
     if (r == 0 && hwloc_topology_load(t) == 0) { WFError e; wf_check(t, e); CHECK(c, e.ok(), "wf_after_xml_load", "load succeeded on an inconsistent document and the topology is ill-formed: %s", e.msgs[0].c_str()); } else c.desc(" (rejected)");
     hwloc_topology_destroy(t); return true; }
   if (name == "F-C11-a") { c.desc("OS device with osdev_type=\"128\" (unknown bit): type printing must terminate"); load_doc(c, head + pus + "  <object type=\"OSDev\" gp_index=\"9\" name=\"x\" osdev_type=\"128\"/>\n </object>\n</topology>\n"); return true; }
+  if (name == "F-C06-m") { c.desc("root object of type PU (then Core) with an unparsable complete_nodeset: the core asserted while attaching the default NUMA node");
+    for (const char *ty : {"PU", "Core", "L2Cache", "NUMANode"}) load_doc(c, std::string("<?xml version=\"1.0\" encoding=\"UTF-8\"?>\n<!DOCTYPE topology SYSTEM \"hwloc2.dtd\">\n<topology version=\"3.0\">\n <object type=\"") + ty + "\" os_index=\"0\" cpuset=\"0x1\" complete_cpuset=\"0x1\" nodeset=\"0x1\" complete_nodeset=\"zz\" gp_index=\"2\" cache_type=\"0\" depth=\"2\"/>\n</topology>\n");
+    return true; }
+  if (name == "F-C06-n") { c.desc("unique 64-bit gp_index values that collide once truncated to 32 bits: hwloc_topology_check() must not abort");
+    std::string x = head + pus + " </object>\n</topology>\n"; size_t p = x.find("gp_index=\"4\""); x.replace(p, 12, "gp_index=\"4294967297\""); load_doc(c, x);
+    hwloc_topology_t t; hwloc_topology_init(&t); hwloc_topology_set_xmlbuffer(t, x.c_str(), (int)x.size() + 1); CHECK(c, hwloc_topology_load(t) == 0, "named_setup", "document rejected"); WFError e; wf_check(t, e); CHECK(c, e.ok(), "named_setup", "ill-formed: %s", e.ok() ? "" : e.msgs[0].c_str()); hwloc_topology_check(t); hwloc_topology_destroy(t);
+    return true; }
   if (name == "F-C11-c") { c.desc("object type \"die\\xe0\""); load_doc(c, head + "  <object type=\"die\xe0\" os_index=\"0\" cpuset=\"0x3\" complete_cpuset=\"0x3\" nodeset=\"0x1\" complete_nodeset=\"0x1\" gp_index=\"7\">\n" + pus + "  </object>\n </object>\n</topology>\n"); return true; }
   return false;
 }
